@@ -323,15 +323,15 @@ class FnView:
         return None
 
     ADAPT_SAME = re.compile(
-        r"(core::ops::Try>::branch$|::ok_or(_else)?::<|::ok_or(_else)?$|core::result::Result<.*>::map_err|core::result::Result<.*>::map::<|"
-        r"core::option::Option<.*>::map::<|core::option::Option<.*>::ok_or|as core::convert::From<subtle::CtOption<.*>>>::from$|"
-        r"<bool as core::convert::From<subtle::Choice>>::from$|subtle::Choice::unwrap_u8$|subtle::CtOption<.*>::is_some$|"
-        r"core::option::Option<.*>::is_some$|core::result::Result<.*>::is_ok$|core::result::Result<.*>::ok$|"
+        r"(core::ops::Try>::branch$|::ok_or(_else)?::<|::ok_or(_else)?$|core::result::Result(::)?<.*>::map_err|core::result::Result(::)?<.*>::map::<|"
+        r"core::option::Option(::)?<.*>::map::<|core::option::Option(::)?<.*>::ok_or|as core::convert::From<subtle::CtOption<.*>>>::from$|"
+        r"<bool as core::convert::From<subtle::Choice>>::from$|subtle::Choice::unwrap_u8$|subtle::CtOption(::)?<.*>::is_some$|"
+        r"core::option::Option(::)?<.*>::is_some$|core::result::Result(::)?<.*>::is_ok$|core::result::Result(::)?<.*>::ok$|"
         r"as core::convert::Into<.*>>::into$|<subtle::Choice as core::convert::From<u8>>::from$|core::hint::black_box|"
-        r"core::option::Option<.*>::as_ref$|core::result::Result<.*>::as_ref$|core::option::Option<.*>::copied$|"
-        r"core::option::Option<.*>::and_then::<|subtle::CtOption<.*>::and_then::<|subtle::CtOption<.*>::map::<)")
+        r"core::option::Option(::)?<.*>::as_ref$|core::result::Result(::)?<.*>::as_ref$|core::option::Option(::)?<.*>::copied$|"
+        r"core::option::Option(::)?<.*>::and_then::<|subtle::CtOption(::)?<.*>::and_then::<|subtle::CtOption(::)?<.*>::map::<)")
     ADAPT_NEG = re.compile(
-        r"(subtle::CtOption<.*>::is_none$|core::option::Option<.*>::is_none$|core::result::Result<.*>::is_err$|"
+        r"(subtle::CtOption(::)?<.*>::is_none$|core::option::Option(::)?<.*>::is_none$|core::result::Result(::)?<.*>::is_err$|"
         r"<subtle::Choice as core::ops::Not>::not$|<bool as core::ops::Not>::not$)")
     ADAPT_AND = re.compile(r"(<subtle::Choice as core::ops::BitAnd>::bitand$|<bool as core::ops::BitAnd>::bitand$)")
     ADAPT_OR = re.compile(r"(<subtle::Choice as core::ops::BitOr>::bitor$|<bool as core::ops::BitOr>::bitor$)")
@@ -606,3 +606,52 @@ def expr_calls(e, out=None):
         for x in e:
             expr_calls(x, out)
     return out
+
+
+def root(fv, o, depth=30):
+    """Follow plain copies / moves / shared refs / derefs of single-definition temporaries.
+    Returns ('local', n, projkey) | ('arg', n, projkey) | ('const', k) | ('call', bb, term, projkey)"""
+    if o[0] == "k":
+        return ("const", o[1])
+    pl = o[1]
+    return _root_place(fv, pl[0], pl[1], depth)
+
+
+def _root_place(fv, base, proj, depth):
+    pk = _proj_key([e for e in proj if e != "*"])
+    ds = fv.defs.get(base, [])
+    if 1 <= base <= fv.nargs and not ds:
+        return ("arg", base, pk)
+    if len(ds) != 1 or depth <= 0 or ds[0].proj:
+        return ("local", base, pk)
+    d = ds[0]
+    if d.kind == "call":
+        if d.via_mutref:
+            return ("local", base, pk)
+        return ("call", d.bb, d.term, pk) if not pk else ("local", base, pk)
+    rv = d.rv
+    inner = None
+    if rv[0] == "use" and rv[1][0] in ("c", "m"):
+        inner = rv[1][1]
+    elif rv[0] == "ref" and rv[1] in ("shared", "fake"):
+        inner = rv[2]
+    elif rv[0] == "cast" and rv[2][0] in ("c", "m") and "Pointer" in rv[1]:
+        inner = rv[2][1]
+    if inner is None:
+        return ("local", base, pk)
+    r = _root_place(fv, inner[0], inner[1], depth - 1)
+    if r[0] in ("local", "arg"):
+        return (r[0], r[1], r[2] + pk)
+    if r[0] == "call" and pk:
+        # projection of a call result: name the temporary holding the call result
+        return ("local", inner[0], _proj_key([e for e in inner[1] if e != "*"]) + pk)
+    return r
+
+
+def same_value(fv, o1, o2):
+    a, b = root(fv, o1), root(fv, o2)
+    if a[0] == "const" or b[0] == "const":
+        return False
+    if a[0] == "call" and b[0] == "call":
+        return a[1] == b[1] and a[2] is b[2]
+    return a == b
